@@ -43,17 +43,26 @@ def write_jobs(tier):
              "_obligation": "O5", "_covers": ["attempted"], "unwind": 80} for b in ((0,) if tier == "quick" else (0, 1))]
 
 
+from props import C03 as _c03
+
+
+def history_jobs(tier):
+    return [{"id": f"O6.commit-history.{nm}", "func": "VerifH_C10_CommitHistory", "conf": {"n": dag.count("|") + 1, "dag": dag, "orders": "two", "shortid": 0, "del": -1},
+             "_obligation": "O6", "_covers": ["ran"], "unwind": 80, "reset_mode": True} for nm, dag in (("linear-3", "-|0|1"), ("two-heads", "-|0|0"))]
+
+
 PROPERTY = {
     "id": "C10",
     "suites": [{"name": "permissioned", "pkg": "internal/db/fetcher", "files": ["zz_verif_c03.go", "zz_verif_c07.go", "zz_verif_c10.go"],
                 "common": ["intrinsics", "kvmodel", "dagenv"], "jobs": jobs, "unwind": 30,
                 "overrides": {"github.com/sourcenetwork/defradb/client.CborNil": "bytes:f6"}},
                dict(_c09.PROPERTY["suites"][0], name="request", files=["zz_verif_query.go", "zz_verif_c10q.go"], jobs=request_jobs),
+               dict(next(x for x in _c03.PROPERTY["suites"] if x["name"] == "request"), name="history", jobs=history_jobs),
                dict(_c20.SAVE_SUITE, name="writeapi", jobs=write_jobs, redirects=_c20.API_REDIR, files=_c20.SAVE_FILES + ["zz_verif_c20api.go", "zz_verif_c10api.go"], common=["intrinsics", "kvmodel", "dagenv", "kvtxn"])],
     "bounds": {"write side (O5)": "one private document of a 2-field collection, created (and optionally updated) by its owner; one attempt (update / delete / create of the same content) by an identified requester without relationship or by an anonymous one; plain collection (thorough: branchable too)",
                "request level (O4)": "2 users, 2 devices, one user or one device unreadable; ages / years / filter constant in a small range; eight request shapes; index sets none and all (thorough: every combination); twin store = the same store without the unreadable document",
                "stack (O3)": "the real wrappingFetcher Init/Start/FetchNext over 2 (thorough 3) documents in the key-value model, each active or deleted, showDeleted on or off", "documents in the scan": "2-3 (thorough 4)", "per document": "registered / allowed / IsDocRegistered error / CheckDocAccess error all symbolic", "policy": "present or absent", "identity": "none or present"},
     "assumptions": ["the ACP system is a symbolic table (the real local/source-hub ACP is not executed)", "the inner fetcher yields the scan's document ids in order"],
-    "outside_claim": ["commit-history queries (dagScanNode), time travel, subscriptions, filtered update / delete (UpdateWithFilter, DeleteWithFilter), grouping and aggregates other than _count, grant / revoke through the real ACP engine",
+    "outside_claim": ["latestCommits and _version sub-selections, time travel, subscriptions, filtered update / delete (UpdateWithFilter, DeleteWithFilter), grouping and aggregates other than _count, grant / revoke through the real ACP engine",
                       "the ACP engine itself (zanzibar relations)"],
 }
